@@ -473,11 +473,12 @@ theorem valueOK_ip6 {ip : Bytes} (h : ip.length = 16) : ValueOK kIp6 (encBytes i
   rw [if_neg (by decide), if_neg (by decide), if_neg (by decide), if_pos rfl]
   exact ⟨ip, h, rfl⟩
 
-/-- The entry stored for a public key is well typed (for a lawful scheme). -/
-theorem valueOK_pub {S : Scheme} (hL : S.Lawful) (pk : S.PK) :
+/-- The entry stored for a public key is well typed (for a lawful scheme and a key whose encoding
+    has a length that fits). -/
+theorem valueOK_pub {S : Scheme} (hL : S.Lawful) (pk : S.PK) (hk : KeyOK S pk) :
     ValueOK (S.enrKey pk) (pubValue S pk) := by
   obtain ⟨h1, h2, h3, h4⟩ := hL.key_not_reserved pk
-  have hl := (hL.pub_len pk).1
+  have hl := hk.1
   unfold ValueOK pubValue
   rw [if_neg h1, if_neg (by rw [h2]; decide), if_neg h3, if_neg h4]
   split
@@ -485,8 +486,8 @@ theorem valueOK_pub {S : Scheme} (hL : S.Lawful) (pk : S.PK) :
   · exact Or.inl ⟨_, hl, rfl⟩
 
 theorem contentOK_withPubkey {S : Scheme} (hL : S.Lawful) {c : Content} (pk : S.PK)
-    (hc : ContentOK c) : ContentOK (withPubkey S c pk) :=
-  contentOK_insert hc (hL.pub_len pk).2 (valueOK_pub hL pk)
+    (hk : KeyOK S pk) (hc : ContentOK c) : ContentOK (withPubkey S c pk) :=
+  contentOK_insert hc hk.2 (valueOK_pub hL pk hk)
 
 theorem contentOK_stageSocket {c : Content} {ip : Bytes} {port : Nat} (isTcp : Bool)
     (hc : ContentOK c) (hip : ip.length = 4 ∨ ip.length = 16) (hp : port < 65536) :
@@ -548,7 +549,7 @@ theorem opStage_contentOK {S : Scheme} (hL : S.Lawful) {c c' : Content} {op : Op
   | setClientInfo n v b =>
     simp only [opStage] at h; exact contentOK_stageInsert hc kClient_length h
   | setPublicKey pk' =>
-    simp only [opStage] at h; exact contentOK_stageInsert hc (hL.pub_len pk').2 h
+    simp only [opStage] at h; exact contentOK_stageInsert hc hwf.2 h
   | removeUdp4 | removeUdp6 | removeTcp | removeTcp6 | removeKey =>
     simp only [opStage, Except.ok.injEq, Prod.mk.injEq] at h
     rw [← h.1]; exact contentOK_erase hc
@@ -649,7 +650,7 @@ theorem rlpContent_congr (a b : Record) (h1 : a.seq = b.seq) (h2 : a.content = b
 
 /-- The record an update commits is valid, provided the signature it got verifies. -/
 theorem prepareG_valid {S : Scheme} (hL : S.Lawful) {r : Record} {op : Op S} {pk : S.PK}
-    {chk : Bool} {p : Prepared} (hv : Valid S r) (hwf : op.WF)
+    {chk : Bool} {p : Prepared} (hv : Valid S r) (hwf : op.WF) (hk : KeyOK S pk)
     (hp : prepareG S r op pk chk = .ok p) (sig : Bytes)
     (hsig : S.verify pk p.enr.rlpContent sig = true) (hlen : sig.length < 2 ^ 64)
     (hsz : ({ p.enr with sig := sig, nodeId := nodeIdOf S pk } : Record).size ≤ MAX_ENR_SIZE) :
@@ -657,7 +658,7 @@ theorem prepareG_valid {S : Scheme} (hL : S.Lawful) {r : Record} {op : Op S} {pk
   obtain ⟨c, ret, sc, hst, _, henr, hps, hseq, hset, _⟩ := prepareG_ok_inv hp
   have hc : ContentOK c := opStage_contentOK hL hv.content hwf hst
   have hcontent : p.enr.content = withPubkey S c pk := by rw [henr]
-  have hc' : ContentOK p.enr.content := by rw [hcontent]; exact contentOK_withPubkey hL pk hc
+  have hc' : ContentOK p.enr.content := by rw [hcontent]; exact contentOK_withPubkey hL pk hk hc
   obtain ⟨hid, hck⟩ := preSign_ok_inv hps
   refine ⟨?_, hlen, hc', lookup_id_of_id hc' hid, hsz, pk, checkSigningKey_ok_inv hL hck, rfl, hsig⟩
   show p.enr.seq < 2 ^ 64
@@ -681,9 +682,9 @@ theorem step_ok_facts {S : Scheme} (hL : S.Lawful) {r : Record} {op : Op S} {pk 
       (∀ sig, o = some sig → r'.sig = sig) ∧
       Map.lookup r'.content (S.enrKey pk) = some (pubValue S pk) := by
   obtain ⟨p, sig, hp, ho, _, hr', hsz⟩ := step_ok_inv h
-  have hso := hc.2 _ (signRequest_of_prepare hp) sig ho
+  have hso := hc.2.2 _ (signRequest_of_prepare hp) sig ho
   rw [hr'] at hsz
-  have hvalid := prepareG_valid hL hv hc.1 hp sig hso.1 hso.2 hsz
+  have hvalid := prepareG_valid hL hv hc.1 hc.2.1 hp sig hso.1 hso.2 hsz
   obtain ⟨c, ret', sc, _, _, henr, hps, _⟩ := prepareG_ok_inv hp
   subst hr'
   refine ⟨hvalid, checkSigningKey_ok_inv hL (preSign_ok_inv hps).2, rfl, ?_, ?_⟩
@@ -858,7 +859,7 @@ theorem Builder.setSeq_wf {b : Builder} {s : Nat} (hb : b.WF) (hs : s < 2 ^ 64) 
 
 /-- A successfully built record is valid and carries the signer's key. -/
 theorem build_ok_facts {S : Scheme} (hL : S.Lawful) {b : Builder} {pk : S.PK} {o : Option Bytes}
-    {r : Record} (hb : b.WF)
+    {r : Record} (hb : b.WF) (hk : KeyOK S pk)
     (hso : ∀ b', Builder.prepare S b pk = .ok b' → SigOK S pk b'.rlpContent o)
     (h : Builder.build S b pk o = .ok r) :
     Valid S r ∧ S.enrToPublic r.content = .ok pk ∧ r.nodeId = nodeIdOf S pk := by
@@ -885,7 +886,7 @@ theorem build_ok_facts {S : Scheme} (hL : S.Lawful) {b : Builder} {pk : S.PK} {o
           refine ⟨hsorted, fun k v hm => ⟨?_, checkAll_valueOK hca k v hm⟩⟩
           rw [hcont] at hm
           rcases Map.mem_insert hm with hm | hm
-          · simp only [Prod.mk.injEq] at hm; rw [hm.1]; exact (hL.pub_len pk).2
+          · simp only [Prod.mk.injEq] at hm; rw [hm.1]; exact hk.2
           · rcases Map.mem_insert hm with hm | hm
             · simp only [Prod.mk.injEq] at hm; rw [hm.1]; exact kId_length
             · exact hb.2.2 k v hm
